@@ -7,7 +7,8 @@ their receiver).  Results of copy()/metacopy()/constructors/operators are new ob
   * assigns through a parameter alias (`p.coeff = ..`, `p[i] = ..`, `p.qn[i] = ..`, tree: `node.tensor = ..` for a node of the parameter),
   * calls an in-place method on a parameter alias, or
   * hands a parameter alias to a callee known to modify its argument,
-is an *effect*  (function, kind, parameter, access path / callee).  The sidecar gives each function a modifies clause: the set of effects it may
+is an *effect*  (function, kind, parameter, access path / callee); so is a `return` of (a component of) a parameter ("returns-alias": the caller would
+receive an object whose later in-place use reaches the argument).  The sidecar gives each function a modifies clause: the set of effects it may
 have, each with the reason why the represented vector is preserved (R1 callee contract: gauge moves; R2 field outside the denotation:
 configuration objects; R3 a stated joint rewrite such as the prefactor folding of Mps.add).  An effect outside the clause is a failed frame
 obligation.  Effects are keyed by (kind, parameter, path), not by statement text or line, so harmless edits do not disturb them.
@@ -99,6 +100,13 @@ def analyse(fn):
                     o = origin(tt, alias)
                     if o is not None:
                         effects.append((s.lineno, text(s), o[0], "write", ".".join(x for x in o[1] if x != "<in list>")))
+        if isinstance(s, ast.Return) and s.value is not None:
+            # value semantics: a function documented to return a new object must not hand back (a component of) one of its parameters
+            vals = s.value.elts if isinstance(s.value, ast.Tuple) else [s.value]
+            for v in vals:
+                o = origin(v, alias)
+                if o is not None and "<in list>" not in o[1]:
+                    effects.append((s.lineno, text(s), o[0], "returns-alias", ".".join(o[1])))
         for n in calls_of(s):
             f = n.func
             if isinstance(f, ast.Attribute):
@@ -158,10 +166,15 @@ def analyse(fn):
             for k, v in after_then.items():
                 alias.setdefault(k, v)
             return
+        before_loop = dict(alias) if isinstance(s, (ast.For, ast.While)) else None
         for blk in ("body", "orelse", "finalbody"):
             for ch in getattr(s, blk, []) or []:
                 if isinstance(ch, ast.stmt) and not isinstance(ch, (ast.FunctionDef, ast.ClassDef)):
                     visit(ch)
+        if before_loop is not None:
+            # a loop body may run zero times: an alias that the body rebinds to a new object may still hold afterwards
+            for k, v in before_loop.items():
+                alias.setdefault(k, v)
         if isinstance(s, ast.Try):
             for h in s.handlers:
                 for ch in h.body:
